@@ -28,7 +28,9 @@ fn gen_params(t: &mut Tape) -> Vec<Param> {
     let mut out: Vec<Param> = vec![];
     for i in 0..n {
         let vt = if i > 0 && t.chance(1, 2) { out[i - 1].vt } else { *t.pick(&MATCHABLE) };
-        out.push(Param { vt, pk: PK::Plain, name: format!("p{i}") });
+        // destructured parameters (matched with `_` in clauses; their values show in the un-mocked trace)
+        let (vt, pk) = if t.chance(1, 8) { (*t.pick(&[VT::Pair, VT::NewT, VT::St]), PK::Destructure) } else { (vt, PK::Plain) };
+        out.push(Param { vt, pk, name: format!("p{i}") });
     }
     let names = crate::prog::param_names(t, out.len());
     for (p, n) in out.iter_mut().zip(names) {
@@ -56,34 +58,37 @@ struct F {
     is_async: bool,
     deps: u8, // 0 generic `&D`, 1 `&impl Dep0`, 2 no_deps, 3 concrete
     params: Vec<Param>,
+    /// one parameter has the fn's own generic type `T` (the generated trait and the mock API are generic then)
+    generic: bool,
 }
 
 impl F {
     fn render(&self, vis: &str) -> String {
         let mut ps: Vec<String> = vec![];
-        let g = match self.deps {
-            0 => {
+        let tb = if self.is_async { "T: ::core::fmt::Debug + Send + Sync + 'static" } else { "T: ::core::fmt::Debug + 'static" };
+        let g = match (self.deps, self.generic) {
+            (0, g) => {
                 ps.push("deps: &D".into());
-                "<D>"
+                if g { format!("<D, {tb}>") } else { "<D>".to_string() }
             }
-            1 => {
+            (1, g) => {
                 ps.push("deps: &impl Dep0".into());
-                ""
+                if g { format!("<{tb}>") } else { String::new() }
             }
-            3 => {
+            (3, _) => {
                 ps.push("deps: &Conf".into());
-                ""
+                String::new()
             }
-            _ => "",
+            (_, g) => if g { format!("<{tb}>") } else { String::new() },
         };
         for p in &self.params {
-            ps.push(format!("{}: {}", p.name, p.vt.ty("T")));
+            ps.push(format!("{}: {}", p.pat(&self.name), p.vt.ty("T")));
         }
         let id = if self.deps == 2 { "0usize".to_string() } else { "rt::addr(deps)".to_string() };
         let mut body = format!("    let __id: usize = {id};\n");
         let mut parts = vec![];
         for (i, p) in self.params.iter().enumerate() {
-            body.push_str(&format!("    let __a{i} = format!(\"{{:?}}\", {});\n", p.name));
+            body.push_str(&format!("    let __a{i}: String = {};\n", p.trace_expr(&self.name).unwrap_or_else(|| "String::new()".into())));
             parts.push(format!("__a{i}.as_str()"));
         }
         if self.is_async {
@@ -138,7 +143,7 @@ fn block(src: &mut String, title: &str, body: &str) {
 pub fn gen_case(t: &mut Tape) -> Case {
     let kind = t.weighted(&[4, 3, 2]); // fn, mod, trait
     let mut src = String::from(
-        "#![allow(warnings)]\nuse crate::rt;\nuse ::unimock::*;\nuse ::std::panic::{catch_unwind, AssertUnwindSafe};\npub struct Conf { pub name: String }\n\
+        "#![allow(warnings)]\nuse crate::rt;\nuse ::unimock::*;\nuse ::std::panic::{catch_unwind, AssertUnwindSafe};\npub struct Conf { pub name: String }\n#[derive(Debug, Clone, PartialEq)] pub struct N(pub i32);\n#[derive(Debug, Clone, PartialEq)] pub struct S { pub a: i32 }\n\
          #[::entrait::entrait(pub Dep0, mock_api = Dep0Mock, export)]\nfn dep0(_deps: &impl Sized) -> u32 { 5 }\n",
     );
     let mut run = String::from("pub fn run() -> Vec<String> {\n    let mut fails: Vec<String> = vec![];\n");
@@ -147,7 +152,7 @@ pub fn gen_case(t: &mut Tape) -> Case {
     let summary;
     let export_via_macro = t.flip();
     let (mac, exp) = if export_via_macro { ("::entrait::entrait_export", "") } else { ("::entrait::entrait", ", export") };
-    let gen_f = |t: &mut Tape, name: &str, tag: &str, deps_pool: &[u8]| F { name: name.into(), tag: tag.into(), is_async: t.chance(1, 3), deps: *t.pick(deps_pool), params: gen_params(t) };
+    let gen_f = |t: &mut Tape, name: &str, tag: &str, deps_pool: &[u8]| F { name: name.into(), tag: tag.into(), is_async: t.chance(1, 3), deps: *t.pick(deps_pool), params: gen_params(t), generic: false };
     // checks for one mockable fn reachable as `$call(args)` on a Unimock, API path `$api`
     let checks = |f: &F, api: &str, direct_path: &str, unmockable: bool, run: &mut String, classes: &mut Vec<&'static str>, nontrivial: &mut bool| {
         let args = f.args();
@@ -197,10 +202,18 @@ pub fn gen_case(t: &mut Tape) -> Case {
     };
     match kind {
         0 => {
-            let f = gen_f(t, "the_fn", "F", &[0, 0, 1, 2, 3]);
+            let mut f = gen_f(t, "the_fn", "F", &[0, 0, 1, 2, 3]);
+            // a generic parameter of the fn's own: trait and mock API become generic (`TheMock.with_types::<i64>()`)
+            if f.deps != 3 && !f.params.is_empty() && t.chance(1, 5) {
+                let i = t.choose(f.params.len());
+                f.params[i].vt = VT::Gen;
+                f.params[i].pk = PK::Plain;
+                f.generic = true;
+                classes.push("fn:generic_type_parameter");
+            }
             let nd = if f.deps == 2 { ", no_deps" } else { "" };
             src.push_str(&format!("/*GEN*/ #[{mac}(pub TheTrait, mock_api = TheMock{nd}{exp})]\n{}\n", f.render("")));
-            checks(&f, "TheMock", "", f.deps != 3, &mut run, &mut classes, &mut nontrivial);
+            checks(&f, if f.generic { "TheMock.with_types::<i64>()" } else { "TheMock" }, "", f.deps != 3, &mut run, &mut classes, &mut nontrivial);
             classes.push(["fn:generic_deps", "fn:impl_deps", "fn:no_deps", "fn:concrete_deps"][f.deps as usize]);
             if f.deps == 2 && f.params.len() >= 2 {
                 nontrivial = true;
